@@ -33,7 +33,9 @@ PROPS['C13'] = {
              'and its four merge iterators equal the mathematical set operations for all lists. The whole FamilyAndLen table is decided by '
              'the kernel. Text forms (session 12): Display and FromStr of Prefix (strict and relaxed), MaxLenPrefix and Asn are modelled on octets '
              '(Model/PfxText.lean over the address text model of C03) and every value a constructor makes is read back from its own text '
-             '(prefix_text_roundtrip, prefix_text_injective, maxlen_text_roundtrip, asn_text_roundtrip).',
+             '(prefix_text_roundtrip, prefix_text_injective, maxlen_text_roundtrip, asn_text_roundtrip); conversely every prefix the strict or the '
+             'relaxed text reader accepts is well-formed and stable under write-and-read (parsed_prefix_is_constructed, parsed_prefix_wf, over '
+             'parseV4 < 2^32 and parseV6 < 2^128).',
     'note': 'Bit operations (mask, trailing_zeros, shifts) are rendered as Nat div/mod by powers of two; that rendering, Vec::sort/dedup '
             '(modelled as insertion sort + adjacent dedup) are validated by the differential run only; std IpAddr Display/FromStr and u8::from_str are '
             'modelled from their documentation (Model/ResText.lean) and compared with the library on every written and every mutated text (ops pfmt, ptext: '
